@@ -14,6 +14,7 @@ import xonsh.lib.lazyasd as xl
 import xonsh.platform as xp
 import xonsh.procs.jobs as xj
 import xonsh.tools as xt
+from xonsh._verif import sched_point
 from xonsh.built_ins import XSH
 from xonsh.procs.readers import ConsoleParallelReader, NonBlockingFDReader, safe_fdclose
 
@@ -371,6 +372,7 @@ class CommandPipeline:
 
         prev_procs_closed = False
         while proc.poll() is None or first_read or self._any_proc_running():
+            sched_point("pipelines.iterraw.loop")
             first_read = False
             if getattr(proc, "suspended", False) or self._procs_suspended() is not None:
                 self.suspended = True
@@ -440,9 +442,11 @@ class CommandPipeline:
         proc.prevs_are_closed = True
 
         # read from process now that it is over
+        sched_point("pipelines.iterraw.before_final_reads")
         yield from safe_readlines(stdout)
         self.stream_stderr(safe_readlines(stderr))
         proc.wait()
+        sched_point("pipelines.iterraw.after_wait")
         self._endtime()
         yield from safe_readlines(stdout)
         self.stream_stderr(safe_readlines(stderr))
@@ -783,6 +787,7 @@ class CommandPipeline:
 
     def _close_prev_procs(self):
         """Closes all but the last proc's stdout."""
+        sched_point("pipelines._close_prev_procs")
         for s, p in zip(self.specs[:-1], self.procs[:-1], strict=False):
             self._safe_close(s.stdin)
             self._safe_close(s.stderr)
